@@ -11,8 +11,120 @@ from gen import S
 BUILTIN_NAMES = ('String', 'Long', 'Bool', 'ipaddr', 'decimal', 'datetime', 'duration', 'Set')
 
 
+def ast_part(ctx):
+    """schemas born as ASTs: (a) the codec obligations on them, (b) Schema.MarshalJSON = SchemaJson.enc_schema on JSON trees,
+    (c) Schema.UnmarshalJSON = SchemaJson.dec_schema on encoder outputs and structural mutants"""
+    import schemaast
+    from gen import case
+    r = ctx.rng
+    quick = ctx.tier == 'quick'
+    asts = [schemaast.schema_ast(r) for _ in range(600 if quick else 20000)]
+    # (a)
+    cases = [case('a%d' % i, 'schemaast', a) for i, a in enumerate(asts)]
+    go = lib.run_go(cases, 'schemaast', ctx.workdir, timeout_ms=30000)
+    bad = 0
+    hist = {}
+    for c in cases:
+        res = go.get(lib.case_id(c), '(missing)')
+        k = ' '.join(res.split(' ')[:2]).rstrip(')')
+        hist[k] = hist.get(k, 0) + 1
+        ctx.count(c[:3000], res == '(ok resolved)')
+        if res.startswith('(ok'):
+            continue
+        name = res.split(' ')[1].rstrip(')') if res.startswith('(problem') else res
+        if name in ('own-text-does-not-parse', 'json-text-does-not-parse') and ('(principals)' in c or '(resources)' in c):
+            ctx.known('F45', 'an action whose appliesTo has an empty principal or resource list (expressible in JSON and in the AST) is printed as schema text that the text parser rejects')
+            continue
+        bad += 1
+        if bad <= 6:
+            try:
+                t = sx.parse(res)
+                det = ' | '.join(sx.unS(x).decode('utf-8', 'replace')[:300] for x in t[2:4])
+            except Exception:
+                det = ''
+            ctx.violation('schema codec on an AST-born schema: %s\nDETAIL: %s' % (name, det), dict(kind='case', case=c, go=res[:3000]))
+    ctx.extra['ast_born_histogram'] = hist
+    ctx.oblige('direct oracle: AST-born schemas (empty enums / records / applies-to lists, quoted names, annotations): both renderings round-trip and preserve the resolved schema (%d schemas)'
+               % len(cases), 'oracle', bad == 0)
+    # (b)
+    enc = [case('e%d' % i, 'sjsonenc', a) for i, a in enumerate(asts)]
+    go_e, mo_e, mism = lib.differential(ctx, enc, 'sjsonenc', describe='Schema.MarshalJSON and the Coq model (Impl/SchemaJson.v enc_schema) disagree')
+    ctx.oblige('correspondence: Schema.MarshalJSON = SchemaJson.enc_schema (JSON trees) on %d AST-born schemas' % len(enc), 'correspondence', not mism)
+    # (c)
+    trees = []
+    for c in enc:
+        res_ = go_e.get(lib.case_id(c), '')
+        if res_.startswith('(tree '):
+            trees.append(sx.parse(res_)[1])
+    JUNK = [['null'], ['num', '1'], ['str', S('x')], ['arr'], ['obj'], ['bool', '0'], ['bool', '1'], ['arr', ['str', S('a')], ['null']],
+            ['obj', [S('type'), ['str', S('Set')]]], ['obj', [S('type'), ['str', S('Record')]], [S('attributes'), ['obj', [S('a'), ['null']]]]], ['obj', [S('type'), ['num', '1']]]]
+    KEYS = ['type', 'element', 'attributes', 'name', 'required', 'annotations', 'enum', 'memberOfTypes', 'shape', 'tags', 'memberOf', 'appliesTo', 'principalTypes',
+            'resourceTypes', 'context', 'entityTypes', 'actions', 'commonTypes', 'id', 'zz', 'Type', 'ENUM']
+
+    def nodes(t, path=()):
+        yield path, t
+        if not isinstance(t, str) and t and t[0] == 'arr':
+            for i, x in enumerate(t[1:]):
+                yield from nodes(x, path + (i + 1,))
+        elif not isinstance(t, str) and t and t[0] == 'obj':
+            for i, kv in enumerate(t[1:]):
+                yield from nodes(kv[1], path + (i + 1, 1))
+
+    def replace(t, path, f):
+        if not path:
+            return f(t)
+        t = list(t)
+        t[path[0]] = replace(t[path[0]], path[1:], f)
+        return t
+
+    def mutate(t):
+        ns = list(nodes(t))
+        path, sub = r.choice(ns)
+        k = r.randrange(9)
+        if k == 0: return replace(t, path, lambda x: r.choice(JUNK))
+        objs = [(p_, x) for p_, x in ns if not isinstance(x, str) and x and x[0] == 'obj' and len(x) > 1]
+        if not objs: return replace(t, path, lambda x: ['null'])
+        p_, o = r.choice(objs)
+        i = r.randrange(1, len(o))
+        if k == 1: return replace(t, p_, lambda x: x[:i] + x[i + 1:])
+        if k == 2: return replace(t, p_, lambda x: x[:i] + [[x[i][0], ['null']]] + x[i + 1:])
+        if k == 3: return replace(t, p_, lambda x: x + [[x[i][0], r.choice(JUNK)]])
+        if k == 4: return replace(t, p_, lambda x: [x[0]] + r.sample(x[1:], len(x) - 1))
+        if k == 5: return replace(t, p_, lambda x: x + [[S(r.choice(KEYS)), r.choice(JUNK)]])
+        if k == 6: return replace(t, p_, lambda x: x[:i] + [[S(r.choice(KEYS)), x[i][1]]] + x[i + 1:])
+        if k == 7:
+            strs = [(p2, x) for p2, x in ns if not isinstance(x, str) and x and x[0] == 'str']
+            if strs:
+                p2, _ = r.choice(strs)
+                return replace(t, p2, lambda x: ['str', S(r.choice(['String', 'Long', 'Boolean', 'Set', 'Record', 'Entity', 'EntityOrCommon', 'Extension', 'Bool', '', 'User']))])
+        return replace(t, path, lambda x: ['arr', x])
+    dec_trees = list(trees)
+    for t in trees:
+        for _ in range(3 if quick else 8):
+            dec_trees.append(mutate(t))
+    dec = [case('d%d' % i, 'sjsondec', t) for i, t in enumerate(dec_trees)]
+    go_d = lib.run_go(dec, 'sjsondec', ctx.workdir)
+    mo_d = lib.run_model(dec, 'sjsondec', ctx.workdir)
+    mism, unk, acc = 0, 0, 0
+    for c in dec:
+        cid = lib.case_id(c)
+        g_, m_ = lib.canon_str(go_d.get(cid, '(missing)')), lib.canon_str(mo_d.get(cid, '(missing)'))
+        if m_ == '(unmodelled)':
+            unk += 1
+            continue
+        acc += g_.startswith('(ok')
+        if g_ != m_:
+            mism += 1
+            if mism <= 6:
+                ctx.violation('Schema.UnmarshalJSON: Go and the Coq model (Impl/SchemaJson.v dec_schema) disagree: go=%s model=%s' % (g_[:400], m_[:400]),
+                              dict(kind='case', case=c, go=g_, model=m_))
+    ctx.extra['sjsondec'] = dict(cases=len(dec), accepted=acc, unmodelled=unk)
+    ctx.oblige('correspondence: Schema.UnmarshalJSON = SchemaJson.dec_schema on %d JSON trees (encoder outputs and structural mutants; %d outside the modelled domain)'
+               % (len(dec), unk), 'correspondence', mism == 0)
+
+
 def run(ctx):
-    b = lib.standard_build(ctx, theorems=False)   # no Coq theorem for this property yet: see MANIFEST level
+    b = lib.standard_build(ctx, theorems=False)   # model half: Impl/SchemaJson.v (JSON codec on trees); theorems pending
     if not lib.require_builds(ctx, b):
         return
     r = ctx.rng
@@ -103,6 +215,7 @@ def run(ctx):
             except Exception:
                 det = ''
             ctx.violation('schema codec: %s\nSOURCE:\n%s\nDETAIL: %s' % (name, text[:600], det), dict(kind='case', case=c, go=res[:3000]))
+    ast_part(ctx)
     ctx.extra['result_histogram'] = hist
     ctx.oblige('direct oracle: schema text/JSON round trips preserve the resolved schema and are byte-stable (%d schemas)' % len(cases), 'oracle', bad == 0)
     for c in cases[:2]:
